@@ -47,7 +47,7 @@ fn same(lhs: &str, rhs: &str, opt_l: bool, opt_r: bool) -> bool {
 #[derive(Clone, Debug)]
 enum Node { Text(&'static str), If(Cond, Vec<Node>, Option<Vec<Node>>), Case(i32, Vec<Vec<Node>>, Option<Vec<Node>>) }
 #[derive(Clone, Copy, Debug)]
-enum Cond { True, False, Num(i32, char, i32), Odd(i32), AliasTrue, AliasFalse }
+enum Cond { True, False, Num(i32, char, i32), Odd(i32), AliasTrue, AliasFalse, Src(&'static str, bool) }
 
 fn cond_src(c: Cond) -> (String, bool) {
     match c {
@@ -55,6 +55,7 @@ fn cond_src(c: Cond) -> (String, bool) {
         Cond::AliasTrue => ("\\ift ".into(), true), Cond::AliasFalse => ("\\iff ".into(), false),
         Cond::Num(a, r, b) => (format!("\\ifnum {a}{r}{b} "), match r { '<' => a < b, '=' => a == b, _ => a > b }),
         Cond::Odd(n) => (format!("\\ifodd {n} "), n % 2 != 0),
+        Cond::Src(s, v) => (s.into(), v),
     }
 }
 fn render(ns: &[Node], src: &mut String, out: &mut String, live: bool) {
@@ -82,7 +83,11 @@ fn leaves() -> Vec<Vec<Node>> {
     vec![vec![], vec![Node::Text("a")], vec![Node::Text("b")]]
 }
 fn level(inner: &[Vec<Node>]) -> Vec<Vec<Node>> {
-    let conds = [Cond::True, Cond::False, Cond::Num(-3, '<', 2), Cond::Num(2, '=', 2), Cond::Num(-1, '>', 0), Cond::Odd(-3), Cond::Odd(4), Cond::Odd(-2147483647), Cond::AliasTrue, Cond::AliasFalse];
+    let conds = [Cond::True, Cond::False, Cond::Num(-3, '<', 2), Cond::Num(2, '=', 2), Cond::Num(-1, '>', 0), Cond::Odd(-3), Cond::Odd(4), Cond::Odd(-2147483647), Cond::AliasTrue, Cond::AliasFalse,
+        // blanks and the relation itself produced by macro expansion (TeX.2021.503 gets the next NON-BLANK NON-CALL token);
+        // \sp -> one space, \e -> nothing, \lt -> `<`
+        Cond::Src("\\ifnum 1 \\sp <2 ", true), Cond::Src("\\ifnum 1\\e\\sp\\sp =2 ", false), Cond::Src("\\ifnum 2\\lt 3 ", true),
+        Cond::Src("\\ifnum 3 \\e\\sp >\\sp\\sp 2 ", true), Cond::Src("\\ifodd\\sp\\sp 3 ", true)];
     let mut v = vec![];
     for c in conds { for (i, a) in inner.iter().enumerate() { let b = &inner[(i + 1) % inner.len()];
         v.push(vec![Node::Text("x"), Node::If(c, a.clone(), Some(b.clone())), Node::Text("y")]);
@@ -110,7 +115,7 @@ fn conditional_trees() {
     let l3 = level(&pick2);
     let mut n = 0u64;
     for tree in l1.iter().chain(l2.iter()).chain(l3.iter()) {
-        let (mut src, mut out) = (String::from("\\let\\ift=\\iftrue \\let\\iff=\\iffalse "), String::new());
+        let (mut src, mut out) = (String::from("\\let\\ift=\\iftrue \\let\\iff=\\iffalse \\def\\sp{ }\\def\\e{}\\def\\lt{<}"), String::new());
         render(tree, &mut src, &mut out, true);
         n += 1;
         if !same(&src, &out, true, true) {
